@@ -227,11 +227,14 @@ pub struct EfgOpts {
     /// an explicitly named infoset with several nodes states its name at some of them only (the
     /// first, the last, or a random non-empty subset): the format makes the name optional per node
     pub sparse_names: bool,
+    /// payoffs written in several legal number forms (fractions, exponents, explicit sign, no
+    /// leading zero)
+    pub number_forms: bool,
 }
 
 impl EfgOpts {
     pub fn plain() -> EfgOpts {
-        EfgOpts { constant: 0.0, interior: false, share_outcomes: false, naming: Naming::Named, decimal_probs: false, chance_labels: 0, shuffle_actions: false, outcome_names: false, commas: false, comment: false, cross_player_number_names: false, by_reference: false, uncompensated: false, sparse_names: false }
+        EfgOpts { constant: 0.0, interior: false, share_outcomes: false, naming: Naming::Named, decimal_probs: false, chance_labels: 0, shuffle_actions: false, outcome_names: false, commas: false, comment: false, cross_player_number_names: false, by_reference: false, uncompensated: false, sparse_names: false, number_forms: false }
     }
 
     pub fn random(rng: &mut Rng, dyadic: bool) -> EfgOpts {
@@ -250,6 +253,7 @@ impl EfgOpts {
             by_reference: rng.chance(0.5),
             uncompensated: false,
             sparse_names: rng.chance(0.3),
+            number_forms: dyadic && rng.chance(0.3),
         }
     }
 }
@@ -284,11 +288,44 @@ fn num(x: f64) -> String {
 }
 
 impl EfgWriter<'_> {
+    /// one payoff as text: with `number_forms` a dyadic value may be written as a fraction, with an
+    /// exponent, with an explicit plus sign or without the leading zero (all legal, all exact)
+    fn pay(&mut self, x: f64) -> String {
+        if !self.opts.number_forms || !x.is_finite() || x == 0.0 {
+            return num(x);
+        }
+        let scaled = x * 64.0;
+        if scaled.fract() != 0.0 || scaled.abs() > 1e9 {
+            return num(x);
+        }
+        match self.rng.below(6) {
+            0 => {
+                // lowest terms over a power of two
+                let (mut n, mut d) = (scaled as i64, 64i64);
+                while n % 2 == 0 && d > 1 {
+                    n /= 2;
+                    d /= 2;
+                }
+                if d == 1 {
+                    format!("{}", n)
+                } else {
+                    format!("{}/{}", n, d)
+                }
+            }
+            1 => format!("{}/64", scaled as i64),
+            2 => format!("{:?}e-1", x * 10.0).replace(".0e", "e"),
+            3 if x > 0.0 => format!("+{}", num(x)),
+            4 if x.abs() < 1.0 => num(x).replacen("0.", ".", 1),
+            _ => num(x),
+        }
+    }
+
     fn payoffs(&mut self, a: f64, b: f64) -> String {
+        let (sa, sb) = (self.pay(a), self.pay(b));
         if self.opts.commas {
-            format!("{{ {}, {} }}", num(a), num(b))
+            format!("{{ {}, {} }}", sa, sb)
         } else {
-            format!("{{ {} {} }}", num(a), num(b))
+            format!("{{ {} {} }}", sa, sb)
         }
     }
 
@@ -557,6 +594,9 @@ pub fn write_efg(rng: &mut Rng, tree: &HNode, opts: &EfgOpts) -> FileGame {
         Naming::Unnamed => features.push("unnamed-infosets"),
         Naming::Mixed => features.push("mixed-named-infosets"),
         _ => {}
+    }
+    if opts.number_forms {
+        features.push("payoffs-as-fractions-exponents-signed");
     }
     if opts.constant != 0.0 {
         features.push("constant-sum-nonzero");
